@@ -618,6 +618,29 @@ class SymBytes:
     def __len__(self):
         return len(self.elems)
 
+    def __iter__(self):
+        return iter(self.elems)
+
+    def __getitem__(self, i):
+        r = self.elems[i]
+        return SymBytes(r) if isinstance(i, slice) else r
+
+    @staticmethod
+    def _elems_of(o):
+        if isinstance(o, SymBytes):
+            return list(o.elems)
+        if isinstance(o, (bytes, bytearray)):
+            return list(o)
+        return None
+
+    def __add__(self, o):
+        e = SymBytes._elems_of(o)
+        return NotImplemented if e is None else SymBytes(list(self.elems) + e)
+
+    def __radd__(self, o):
+        e = SymBytes._elems_of(o)
+        return NotImplemented if e is None else SymBytes(e + list(self.elems))
+
 
 # ---------------------------------------------------------------------------
 # interpreter
@@ -1256,6 +1279,18 @@ class Interp:
             return fn(args[0], _unproxy(args[1]))
         if fn is builtins.type and len(args) == 1 and _is_sym(args[0]):
             return bool if isinstance(args[0], SymBool) else int
+        if getattr(fn, "__name__", "") == "join" and isinstance(getattr(fn, "__self__", None), (bytes, bytearray)) and len(args) == 1:
+            parts = list(args[0])
+            if any(isinstance(e, SymBytes) for e in parts):
+                # sep.join(parts) with symbolic byte strings among the parts
+                sep, out = list(fn.__self__), []
+                for i, e in enumerate(parts):
+                    ee = SymBytes._elems_of(e)
+                    if ee is None:
+                        raise TypeError("sequence item %d: expected a bytes-like object, %s found" % (i, type(e).__name__))
+                    out += (sep if i else []) + ee
+                return SymBytes(out)
+            return fn(parts)
         if fn is locals:
             return fr.f_locals
         if fn is globals:
